@@ -33,3 +33,22 @@ func TestWatchdogSpin(t *testing.T) {
 	}
 	atomic.StoreInt32(&stop, 1)
 }
+
+// WaitDone: a blocked-for-good wait is a stall; a long computation is not.
+func TestWaitDone(t *testing.T) {
+	never := make(chan struct{})
+	t0 := time.Now()
+	if WaitDone(never, 3) {
+		t.Fatal("a wait nobody will ever answer was not reported as a stall")
+	}
+	t.Logf("stall reported after %v", time.Since(t0))
+	done := make(chan struct{})
+	go func() { // 6 s of computing, then done
+		for t1 := time.Now(); time.Since(t1) < 6*time.Second; {
+		}
+		close(done)
+	}()
+	if !WaitDone(done, 3) {
+		t.Fatal("a computing goroutine was taken for a stall")
+	}
+}
